@@ -235,6 +235,7 @@ func run(c *Case, identity bool, st *Stats) *vf.Failure {
 	}()
 	m := dbh.NewMDB()
 	var defs []*dbh.TableDef
+	churnNext := 0
 	for oi := range c.Ops {
 		op := &c.Ops[oi]
 		when := fmt.Sprintf("op %d (%s)", oi, op.K)
@@ -332,6 +333,46 @@ func run(c *Case, identity bool, st *Stats) *vf.Failure {
 				return vf.Failf("join-rows", "%s: join of the helper tables returned %d rows, 400 expected", when, len(rows))
 			}
 			st.Classes["hash-join-with-temporary-pages"] = true
+		case "churn":
+			// first time: 480 rows into a helper table with two skip-list indexes, then 320 of them deleted (index nodes run empty
+			// and are deallocated: reusable page ids); later times: 200 more rows (pages are allocated again)
+			if _, ok := m.Tables["ch"]; !ok {
+				hd := &dbh.TableDef{Name: "ch", Cols: []dbh.Col{{Name: "id", T: "i", Idx: dbh.IdxSkip}, {Name: "v", T: "i", Idx: dbh.IdxSkip}}}
+				if err := db.CreateTable(hd); err != nil {
+					return vf.Failf("create-error", "%s %s: %v", when, hd.Name, err)
+				}
+				m.Create(hd)
+				defs = append(defs, hd)
+				for b := 0; b < 480; b += 40 {
+					ins := &dbh.Stmt{Kind: "insert", Table: "ch", Cols: []string{"id", "v"}}
+					for i := b; i < b+40; i++ {
+						ins.Rows = append(ins.Rows, dbh.Row{dbh.IntV(int32(i)), dbh.IntV(int32(100000 + i))})
+					}
+					if _, err := db.Auto(ins); err != nil {
+						return vf.Failf("dml-error", "%s %s: %v", when, "insert into ch", err)
+					}
+					m.Apply(ins, dbh.EvalMode{})
+				}
+				del := &dbh.Stmt{Kind: "delete", Table: "ch", Where: dbh.And(dbh.Leaf("id", ">=", dbh.IntV(160)), dbh.Leaf("id", "<=", dbh.IntV(479)))}
+				if _, err := db.Auto(del); err != nil {
+					return vf.Failf("dml-error", "%s %s: %v", when, del, err)
+				}
+				m.Apply(del, dbh.EvalMode{})
+				churnNext = 1000
+			} else {
+				for b := 0; b < 200; b += 40 {
+					ins := &dbh.Stmt{Kind: "insert", Table: "ch", Cols: []string{"id", "v"}}
+					for i := b; i < b+40; i++ {
+						ins.Rows = append(ins.Rows, dbh.Row{dbh.IntV(int32(churnNext + i)), dbh.IntV(int32(200000 + churnNext + i))})
+					}
+					if _, err := db.Auto(ins); err != nil {
+						return vf.Failf("dml-error", "%s %s: %v", when, "insert into ch", err)
+					}
+					m.Apply(ins, dbh.EvalMode{})
+				}
+				churnNext += 200
+			}
+			st.Classes["index-nodes-emptied-and-page-ids-recycled"] = true
 		case "biglog":
 			// one session writes more log (about 600 KB) than the log buffer / recovery read buffer (516 KB) holds
 			if _, ok := m.Tables["bl"]; !ok {
@@ -428,6 +469,8 @@ type GenOpts struct {
 	OnExcluded             func(string)
 	// BigLogPct: share of operations (at most one per history) that insert about 600 KB into a helper table in one session
 	BigLogPct int
+	// ChurnPct: share of operations (at most three per history) that fill and thin out a helper table with skip-list indexes
+	ChurnPct int
 	// BigJoinPct: share of operations that run a hash join over two helper tables (400 x 400 rows)
 	BigJoinPct int
 	// ManyTablesPct: share of histories that start by creating 9-13 six-column tables (names and column names of
@@ -448,6 +491,7 @@ func Gen(t *rapid.T, o GenOpts) *Case {
 	n := rapid.IntRange(3, 18).Draw(t, "nops")
 	nIdx, nBtree := 0, 0
 	bigLogDone := false
+	nChurn := 0
 	if o.ManyTablesPct > 0 && rapid.IntRange(0, 99).Draw(t, "many") < o.ManyTablesPct {
 		nw := rapid.IntRange(9, 13).Draw(t, "nwide")
 		longNames := rapid.IntRange(0, 2).Draw(t, "longnames") == 0
@@ -492,6 +536,19 @@ func Gen(t *rapid.T, o GenOpts) *Case {
 			c.Ops = append(c.Ops, Op{K: "biglog"})
 			if rapid.IntRange(0, 2).Draw(t, "logrestart") != 0 {
 				c.Ops = append(c.Ops, Op{K: restartKind(t, o, c, nBtree)})
+			}
+			continue
+		}
+		if o.ChurnPct > 0 && len(g.defs) > 0 && nChurn < 3 && rapid.IntRange(0, 99).Draw(t, "churn") < o.ChurnPct {
+			if nChurn == 0 {
+				nIdx += 2
+			}
+			nChurn++
+			c.Ops = append(c.Ops, Op{K: "churn"})
+			if rapid.Bool().Draw(t, "churnrestart") {
+				c.Ops = append(c.Ops, Op{K: restartKind(t, o, c, nBtree)})
+				c.Ops = append(c.Ops, Op{K: "churn"}) // allocate pages right after the restart
+				nChurn++
 			}
 			continue
 		}
@@ -544,7 +601,7 @@ func Gen(t *rapid.T, o GenOpts) *Case {
 			c.Ops = append(c.Ops, Op{K: restartKind(t, o, c, nBtree)})
 		}
 	}
-	if k := c.Ops[len(c.Ops)-1].K; k == "create" || k == "dml" || k == "abort-txn" || k == "bigjoin" || k == "biglog" {
+	if k := c.Ops[len(c.Ops)-1].K; k == "create" || k == "dml" || k == "abort-txn" || k == "bigjoin" || k == "biglog" || k == "churn" {
 		c.Ops = append(c.Ops, Op{K: restartKind(t, o, c, nBtree)})
 	}
 	frames := 3*nIdx + 8*nBtree + 10 + rapid.SampledFrom([]int{0, 6, 30, 100}).Draw(t, "spare")
